@@ -118,6 +118,8 @@ Next ==
                        ELSE
                          /\ (IF e.has_sauce = 1
                              THEN /\ CheckFields(1, e.writer, v, e.in, e.out, l)
+                                  \* the buffer width carried by the record is also the width of the loaded buffer
+                                  /\ Check(WidthCarried(v, e.in.width) => e.buf_width = e.in.width, "C11", "Meta", l, [field |-> "bufwidth", writer |-> e.writer, variant |-> v])
                                   /\ Expect(e.out.hdr = sp.hdr \/ e.writer = "icy", "loaded-hdr", l, [writer |-> e.writer])
                                   /\ Expect(/\ e.out.title = PadTo(ReadField(PadTo(e.in.title, 35, Blank), Blank), 35, Blank)
                                             /\ e.out.author = PadTo(ReadField(PadTo(e.in.author, 20, Blank), Blank), 20, Blank)
